@@ -114,7 +114,77 @@ def containment_case(ctx, i):
                       {"suite": "sched", "input": header + hist, "impl": full[:40], "first_failing_clause": "tolerant"})
 
 
+
+def run_mode_cases(ctx):
+    """The same containment through Timeline.run() (DummyClock drives tick() until StopIteration): tolerant mode returns
+    normally with every healthy track's complete output equal to the run without the failing tracks; intolerant mode
+    lets the exception escape run()."""
+    r = ctx.rng
+    for i in range(ctx.scale(120, 4000)):
+        prof = sched_gen.profile(n_streams=(2, 4), p_finite=1.0, pre=(1, 5), p_fault_item=0.1, p_bad_voice=0.08, p_action=0.0,
+                                 p_chord=0.3, p_voice_chan=0.0, steps=(0, 0), initial_sched=(0, 0), final_clear=False, tolerant=1.0,
+                                 max_dur_ticks=3, gates="short")
+        g = sched_gen.Gen(r, prof)
+        g.build("r%d" % i)
+        header = [l for l in g.lines if l.split()[0] in ("case", "q", "stream", "item")]
+        tolerant = r.random() < 0.6
+        header[1] = header[1].rsplit(" ", 1)[0] + (" 1" if tolerant else " 0")
+        faulty = strip_faults(header)
+        order = list(range(g.n_streams))
+        r.shuffle(order)
+
+        def execute(sids):
+            rn = sched_impl.Runner(lambda l: None)
+            for l in header:
+                rn.line(l)
+            for s_ in sids:
+                rn.line("op sched %d - - - 1 - 1" % s_)
+            per_tick = []
+            orig_tick = rn.tl.tick
+            count = [0]
+
+            def tick():
+                count[0] += 1
+                if count[0] > 5000:
+                    raise RuntimeError("run() did not stop")
+                orig_tick()
+                if rn.dev.calls:
+                    per_tick.append((count[0] - 1, list(rn.dev.calls)))
+                    rn.dev.calls = []
+            rn.tl.tick = tick
+            err = None
+            try:
+                with sched_impl.quiet():
+                    rn.tl.run(stop_when_done=True)
+            except Exception as ex:
+                err = type(ex).__name__
+            if rn.dev.calls:
+                per_tick.append((count[0] - 1, list(rn.dev.calls)))
+            return per_tick, err
+        full, err = execute(order)
+        ref, err0 = execute([s_ for s_ in order if s_ not in faulty])
+        healthy_ch = {s_ % 16 for s_ in range(g.n_streams) if s_ not in faulty} - {s_ % 16 for s_ in faulty}
+
+        def proj(trace):
+            return [(t, [c for c in cs if int(c.split(":")[-1]) in healthy_ch]) for t, cs in trace if any(int(c.split(":")[-1]) in healthy_ch for c in cs)]
+        ctx.case(("run", tuple(header[1:]), tuple(order)), nontrivial=bool(faulty) and bool(healthy_ch), validated=False,
+                 sample={"run_mode": {"tolerant": tolerant, "faulty_streams": sorted(faulty), "order": order}} if i < 2 else None)
+        ctx.count("run:tolerant=%d:faulty=%d" % (tolerant, len(faulty)))
+        rp = {"suite": "sched-run", "input": header + ["op sched %d - - - 1 - 1" % s_ for s_ in order] + ["run"], "tolerant": tolerant}
+        if tolerant:
+            if err is not None:
+                ctx.violation("C17:run:exception-escaped-tolerant-run", "Timeline.run() raised %s in tolerant mode" % err, rp)
+            elif proj(full) != proj(ref):
+                ctx.violation("C17:run:healthy-track-disturbed", "through run(): healthy tracks' output %s differs from the run without the failing tracks %s" % (
+                    proj(full)[:3], proj(ref)[:3]), rp)
+        else:
+            fault_fired = err is not None
+            if faulty and not fault_fired and proj(full) != proj(ref):
+                ctx.violation("C17:run:fault-lost", "intolerant run() neither raised nor matched the fault-free run", rp)
+
+
 def run(ctx):
+    run_mode_cases(ctx)
     sched_suite.run_suite(ctx, PROF, ctx.scale(2000, 120000), "c17", [time_oracle], nontrivial, signature_of)
     for i in range(ctx.scale(300, 12000)):
         containment_case(ctx, i)
